@@ -492,6 +492,8 @@ var c14Lines = []string{
 	"permit ip any4 any4",
 }
 
+var c14Lines4 = []string{c14Lines[4], c14Lines[6], c14Lines[1], c14Lines[0], c14Lines[5]}
+
 func iosSpell(l string) string {
 	// ASA net mask -> IOS wildcard, any4 -> any
 	l = strings.ReplaceAll(l, "255.255.255.0", "0.0.0.255")
@@ -641,6 +643,9 @@ func c14Worker(ctx *core.Ctx) *core.Result {
 	x.runSpaces([]*space{
 		aclPairSpace("ASA", "acl-asa", c14Lines, 7, 3, false),
 		aclPairSpace("IOS", "acl-ios", c14Lines, 7, 3, false),
+		// length 4 over five lines: two overlapping denies, three permits
+		aclPairSpace("ASA", "acl-asa4", c14Lines4, 5, 4, false),
+		aclPairSpace("IOS", "acl-ios4", c14Lines4, 5, 4, false),
 	})
 	if ctx.Thorough() {
 		// extended spaces: a superset of the quick ones, own names so that
@@ -668,7 +673,7 @@ func init() {
 				"ACL semantics: first match, implicit deny; joined two-command lines are one step (sent in one packet to the device)",
 				"packet universe 3 sources x 2 destinations x {tcp/22,tcp/80,udp/53}; no object-groups (excluded by the statement)",
 			},
-			Bounds: map[string]any{"quick": "len<=3 over 7 lines", "thorough": "len<=4 over 8 lines", "routes": "all subset pairs of 8 routes (ASA, IOS), 9 x 7 routes (Linux), incl. prefixes that share the network address"},
+			Bounds: map[string]any{"quick": "len<=3 over 7 lines and len<=4 over 5 lines", "thorough": "len<=4 over 8 lines", "routes": "all subset pairs of 8 routes (ASA, IOS), 9 x 7 routes (Linux), incl. prefixes that share the network address"},
 		}
 	}, 150*time.Second, 40*time.Minute)
 }
